@@ -185,6 +185,10 @@ def walk_from(em, g, init_view, tf=None, dask_mode=None, sched_factory=None, fin
         if not np.array_equal(Xi.astype(float), X):
             return "skip", "values not representable in %s" % dtype
         X = Xi
+    import random as _random
+    import zlib
+    from .common import relayout
+    X = relayout(X, _random.Random(zlib.crc32(np.ascontiguousarray(X).tobytes())))      # deterministic layout choice
     cap = s["cap"]
     thr = fr(s["thr"])
     thr_f = None if thr < 0 else float(thr)
